@@ -43,7 +43,7 @@ type C16Edge struct {
 	Cmd       int `json:"cmd"` // 0 BLPOP 1 BRPOP two keys 2 BLMOVE 3 BLMPOP
 }
 
-var c16EdgeNames = []string{"", "timeout", "client-unblock", "socket-closed", "client-kill", "large-value-scanned-while-written", "transaction-reaching-into-another-database", "introspection-and-deadlines-across-databases"}
+var c16EdgeNames = []string{"", "timeout", "client-unblock", "socket-closed", "client-kill", "large-value-scanned-while-written", "transaction-reaching-into-another-database", "introspection-and-deadlines-across-databases", "databases-first-selected-while-the-periodic-saver-runs"}
 
 // c16BigValue: a 256 KiB string, a hash and a list with large members; writers change them with the commands
 // that could work in place, readers scan them with the commands whose work is proportional to the size.
@@ -208,7 +208,35 @@ func c16Introspect(emu *kit.Emu, e C16Edge) {
 	wg.Wait()
 }
 
+// c16FirstSelects: an emulator with a persist path (the saver runs once a second); for a little more than a second
+// connections select databases nobody has used yet, one every few milliseconds, and write a key there.
+func c16FirstSelects(e C16Edge) {
+	dir, err := os.MkdirTemp(os.Getenv("VERIF_RUN"), "c16s-")
+	if err != nil {
+		return
+	}
+	defer os.RemoveAll(dir)
+	emu := kit.StartEmu(filepath.Join(dir, "data"))
+	defer emu.Stop()
+	conns := make([]*kit.Conn, 2+e.Waiters/3)
+	for i := range conns {
+		conns[i] = emu.Dial()
+		conns[i].Do("SET", "seed", "1")
+	}
+	start := time.Now()
+	for db := 1; db <= 15; db++ {
+		cn := conns[db%len(conns)]
+		cn.Do("SELECT", strconv.Itoa(db))
+		cn.Do("SET", "k", strconv.Itoa(db))
+		time.Sleep(time.Until(start.Add(time.Duration(db) * 85 * time.Millisecond)))
+	}
+}
+
 func c16EdgeRun(emu *kit.Emu, e C16Edge) {
+	if e.Kind == 8 {
+		c16FirstSelects(e)
+		return
+	}
 	if e.Kind == 7 {
 		c16Introspect(emu, e)
 		return
@@ -338,7 +366,7 @@ func c16Gen(t *rapid.T) C16Case {
 		c.Drops = append(c.Drops, d)
 	}
 	if rapid.IntRange(0, 2).Draw(t, "edge") == 0 {
-		c.Edge = &C16Edge{Kind: rapid.IntRange(1, 7).Draw(t, "ekind"), Rounds: rapid.IntRange(10, 40).Draw(t, "erounds"), Waiters: rapid.IntRange(1, 8).Draw(t, "ewaiters"),
+		c.Edge = &C16Edge{Kind: rapid.IntRange(1, 8).Draw(t, "ekind"), Rounds: rapid.IntRange(10, 40).Draw(t, "erounds"), Waiters: rapid.IntRange(1, 8).Draw(t, "ewaiters"),
 			TimeoutMs: pick(t, "ems", 10, 15, 20), Cmd: rapid.IntRange(0, 3).Draw(t, "ecmd")}
 	}
 	return c
